@@ -36,6 +36,8 @@ def t_struct(chk, ix):
     rules_parser.check_model_constructors(chk, ix)
     rules_parser.check_error_message_hostile(chk, ix)
     rules_parser.check_regex_ambiguity(chk, ix)
+    # a second rule with the same (or no) title is a legal document: it must be built like the first (shared with C04)
+    rules_parser.check_model_adders(chk, ix)
 
 
 def run(chk, ix, tier):
